@@ -44,6 +44,7 @@ func (r *runner) reset() {
 	r.impKeys, r.scripts = map[int]*big.Int{}, map[int][]byte{}
 	r.created, r.poison, r.pubPass, r.privPass = false, false, 0, 0
 	r.txRecorded, r.nTx = false, 0
+	r.issuedInfo, r.heldKeys = map[string]string{}, nil
 }
 
 func (r *runner) open() error {
@@ -213,6 +214,9 @@ func (r *runner) Exec(op string) (reply string, viol string) {
 		err := r.update(tap, func(ns walletdb.ReadWriteBucket) error {
 			return r.mgr.Unlock(ns, r.keys.privPasses[atoi(kv["p"])])
 		})
+		if r.mgr.IsLocked() {
+			v = append(v, r.checkHeldKeys("Unlock (which locked the manager)")...)
+		}
 		// C04_watch_only: no passphrase unlocks a watching-only manager
 		if r.mgr.WatchOnly() && (err == nil || !r.mgr.IsLocked()) {
 			v = append(v, "C04 key=watch-only.unlock-succeeds: Unlock succeeded on a watching-only manager")
@@ -228,7 +232,9 @@ func (r *runner) Exec(op string) (reply string, viol string) {
 		}
 		return r.finish("ok", err, tap, v)
 	case "lock":
-		return r.finish("ok", r.mgr.Lock(), tap, v)
+		err := r.mgr.Lock()
+		v = append(v, r.checkHeldKeys("Lock")...)
+		return r.finish("ok", err, tap, v)
 	case "chpass":
 		priv := kv["priv"] == "1"
 		oldI, newI := atoi(kv["old"]), atoi(kv["new"])
@@ -300,7 +306,7 @@ func (r *runner) Exec(op string) (reply string, viol string) {
 			return r.finish("", err, tap, v)
 		}
 		xk := r.foreignKey(atoi(kv["x"]))
-		meta := &acctMeta{xpub: xk, ci: xk.ChildNum}
+		meta := &acctMeta{xpub: xk, ci: xk.ChildNum, fp: atou(kv["fp"])}
 		var schema *waddrmgr.ScopeAddrSchema
 		if s := kv["schema"]; s != "-" && s != "" {
 			f := strings.Split(s, "/")
@@ -381,6 +387,7 @@ func (r *runner) Exec(op string) (reply string, viol string) {
 			r.issuedAddr[d] = ma.Address().EncodeAddress()
 			r.nextIdx[bk] = idx + 1
 			v = append(v, r.checkObj(h, "nextAddresses")...)
+			v = append(v, r.checkDerivInfo(h, "nextAddresses")...)
 		}
 		if uint32(len(mas)) != n {
 			v = append(v, fmt.Sprintf("C03 key=nextAddresses.count: asked %d got %d", n, len(mas)))
@@ -437,6 +444,7 @@ func (r *runner) Exec(op string) (reply string, viol string) {
 		}
 		r.handles[atoi(kv["h"])] = h
 		v = append(v, r.checkObj(h, "lookup")...)
+		v = append(v, r.checkDerivInfo(h, "lookup")...)
 		return r.finish("ok "+r.info(h), nil, tap, v)
 	case "markused":
 		addr, _, ok := r.resolveRef(scope, kv["ref"])
@@ -575,6 +583,7 @@ func (r *runner) Exec(op string) (reply string, viol string) {
 			v = append(v, "C04 key=watch-only.privkey-returned: PrivKey() returned a key on a watching-only manager")
 		}
 		v = append(v, r.checkObj(h, "privKey")...)
+		v = append(v, r.checkDerivInfo(h, "privKey")...)
 		if err != nil {
 			return r.finish("", err, tap, v)
 		}
@@ -623,6 +632,7 @@ func (r *runner) Exec(op string) (reply string, viol string) {
 		if h == nil {
 			return "err badhandle || ", ""
 		}
+		v = append(v, r.checkDerivInfo(h, "info")...)
 		return r.finish("ok "+r.info(h), nil, tap, v)
 	case "props":
 		sm, err := r.scoped(scope)
@@ -666,12 +676,13 @@ func (r *runner) Exec(op string) (reply string, viol string) {
 		return r.finish(fmt.Sprintf("ok props=%d:%d:%s:%s", p.ExternalKeyCount, p.InternalKeyCount, nameID(p.AccountName), b01(p.IsWatchOnly)), nil, tap, v)
 	case "restart":
 		r.mgr.Close()
+		v = append(v, r.checkHeldKeys("Close")...)
 		r.handles = map[int]*handle{}
 		if err := r.open(); err != nil {
 			r.poison = true
 			return "err other || ", "C03 key=restart.open-failed: " + err.Error()
 		}
-		return "ok || ", joinV(r.scanImage())
+		return "ok || ", joinV(append(v, r.scanImage()...))
 	case "convertwo":
 		was := r.mgr.WatchOnly()
 		err := r.update(tap, func(ns walletdb.ReadWriteBucket) error { return r.mgr.ConvertToWatchingOnly(ns) })
@@ -749,7 +760,7 @@ func (r *runner) deriveCache(scope string, kv map[string]string, tap *puttap.Tap
 					whose = fmt.Sprintf(" (it is the key of account %d)", a2)
 				}
 			}
-			v = append(v, fmt.Sprintf("C03 key=deriveFromKeyPathCache.key-not-seed-child: DeriveFromKeyPathCache(InternalAccount=%d Account=%d %d/%d) of scope %s returned a private key whose public key is %x%s; the address at that path has public key %x",
+			v = append(v, fmt.Sprintf("C03 key=deriveFromKeyPathCache.key-not-seed-child: DeriveFromKeyPathCache(InternalAccount=%d Account=%d %d/%d) of scope %s returned a private key whose public key is %x%s, the independent derivation of that path (the address at that path) has public key %x",
 				acct, ac, br, idx, scope, priv.PubKey().SerializeCompressed(), whose, k.PubBytes()))
 		default:
 			res = "ok key=hd"
@@ -771,8 +782,87 @@ func (r *runner) deriveCache(scope string, kv map[string]string, tap *puttap.Tap
 		if serr != nil || slow == nil || !bytes.Equal(slow.Serialize(), priv.Serialize()) {
 			v = append(v, fmt.Sprintf("C03 key=deriveFromKeyPathCache.disagrees-with-deriveFromKeyPath: for %s (Account=%d) the cache path and DeriveFromKeyPath+PrivKey() return different keys (slow path error: %v)", d, ac, serr))
 		}
+		// C03: the key a look-up returns is the caller's own.  What the caller does with it afterwards — wipe it
+		// after signing (zero=1: PrivateKey.Zero(), as careful callers do), or just keep it while the manager
+		// locks (zero=0: checked at the next Lock) — must not change what the manager answers for that path, nor may
+		// the manager change a key it handed out.
+		if k != nil && k.IsPriv {
+			if kv["zero"] == "1" {
+				priv.Zero()
+				again, e := sm.DeriveFromKeyPathCache(path)
+				switch {
+				case e != nil:
+					v = append(v, fmt.Sprintf("C03 key=deriveFromKeyPathCache.cached-key-aliased: after the caller wiped (Zero) the key DeriveFromKeyPathCache had returned for %s, the next look-up of that path fails: %v", d, e))
+				case !bytes.Equal(again.Serialize(), k.PrivBytes()):
+					v = append(v, fmt.Sprintf("C03 key=deriveFromKeyPathCache.cached-key-aliased: after the caller wiped (Zero) the key DeriveFromKeyPathCache had returned for %s, the next look-up of that path returns the scalar %x (public key %x) instead of the key of the address at that path (public key %x): the returned key was the cache entry itself",
+						d, again.Serialize(), again.PubKey().SerializeCompressed(), k.PubBytes()))
+				}
+				if e == nil {
+					again.Zero()
+				}
+			} else if res == "ok key=hd" && len(r.heldKeys) < 64 {
+				r.heldKeys = append(r.heldKeys, heldKey{priv: priv, want: k.PrivBytes(), desc: d})
+			}
+		}
 	}
 	return r.finish(res, nil, tap, v)
+}
+
+// checkHeldKeys: the private keys DeriveFromKeyPathCache handed out earlier (and the harness, as their caller, did not
+// wipe) are still the keys they were, whatever the manager did in between (Lock wipes the manager's own copies only).
+func (r *runner) checkHeldKeys(what string) []string {
+	var v []string
+	for _, hk := range r.heldKeys {
+		if !bytes.Equal(hk.priv.Serialize(), hk.want) {
+			v = append(v, fmt.Sprintf("C03 key=deriveFromKeyPathCache.returned-key-changed-by-lock: the private key DeriveFromKeyPathCache returned earlier for %s, still held by its caller, reads %x after %s: the manager wiped a key it had handed out", hk.desc, hk.priv.Serialize(), what))
+		}
+	}
+	r.heldKeys = nil
+	return dedup(v)
+}
+
+// checkDerivInfo: C03 (reported derivation path) / C08 (memory = a freshly opened manager): everything DerivationInfo()
+// reports for an issued address — key scope, InternalAccount, Account, branch, index and the master key fingerprint
+// (what wallet/psbt.go writes into Bip32Derivation entries for external signers) — is what the object returned by
+// nextAddresses reported when the address was issued, on every later look-up (cache hit, after MarkUsed dropped the
+// cache entry, after a restart), and the fingerprint is the one the account was imported with (0 for seed accounts).
+// Addresses made by extendAddresses are left out: on the unchanged tree their cached object reports fingerprint 0
+// until it is re-read from its row (notes/C03.md, observation 5; modelled).
+func (r *runner) checkDerivInfo(h *handle, op string) []string {
+	if !h.chained || h.ma == nil {
+		return nil
+	}
+	m := r.accts[h.scope][h.acct]
+	if m == nil || m.gen > 0 {
+		return nil
+	}
+	d := ckey(h.scope, h.acct, h.br, h.idx)
+	if !strings.HasPrefix(r.originOf[d], "nextAddresses") || strings.HasPrefix(h.origin, "deriveFromKeyPath") {
+		return nil
+	}
+	pk, ok := h.ma.(waddrmgr.ManagedPubKeyAddress)
+	if !ok {
+		return nil
+	}
+	scope, path, ok := pk.DerivationInfo()
+	if !ok {
+		return nil
+	}
+	cur := fmt.Sprintf("{scope:%d:%d internalAccount:%d account:%d branch:%d index:%d masterKeyFingerprint:%d}", scope.Purpose, scope.Coin,
+		path.InternalAccount, path.Account, path.Branch, path.Index, path.MasterKeyFingerprint)
+	var v []string
+	if path.MasterKeyFingerprint != m.fp {
+		v = append(v, fmt.Sprintf("C03 key=derivationInfo.fingerprint-not-the-accounts: DerivationInfo of %s (%s) reports master key fingerprint %d, account %d of scope %s was imported with fingerprint %d", d, op, path.MasterKeyFingerprint, h.acct, h.scope, m.fp))
+	}
+	if op == "nextAddresses" {
+		r.issuedInfo[d] = cur
+		return v
+	}
+	if first, ok := r.issuedInfo[d]; ok && first != cur {
+		v = append(v, fmt.Sprintf("C03 key=derivationInfo.fingerprint-differs-after-reload: %s was issued with derivation info %s, a later look-up (%s) reports %s", d, first, op, cur))
+		v = append(v, fmt.Sprintf("C08 key=Address.restart.derivation-info-differs: %s: the object cached at issue time reported %s, the object rebuilt from the database row (%s) reports %s", d, first, op, cur))
+	}
+	return v
 }
 
 var wtxNS = []byte("wtxmgr")
